@@ -63,6 +63,14 @@ func c05Subtree(p PxProgram, f int) map[int]bool {
 					out[op.Child] = true
 					changed = true
 				}
+				// a plain value send to a contract runs that contract's code too (under the gas stipend): enough for it
+				// to enter a precompile, whose first action is the StateDB flush
+				if op.Kind == "send" && len(op.Target) == 6 && op.Target[:5] == "frame" {
+					if k := int(op.Target[5] - '0'); k >= 0 && k < len(p.Frames) && !out[k] {
+						out[k] = true
+						changed = true
+					}
+				}
 			}
 		}
 	}
